@@ -195,6 +195,44 @@ func main() {
 		o.Def("stamp", "String", `"(absent)"`)
 	}
 
+	// D27 repair: the keys of the persisted dependencies map are escaped reversibly (absent before the repair: the tie in
+	// Dawn/Ties/BuildKeys.lean then breaks, for C02 only)
+	optional := func(def, file, fn string) {
+		if fd := files[file].Func(fn); fd != nil {
+			o.Def(def, "String", lib.LeanLongString(lib.NormFunc(fd)))
+		} else {
+			o.Def(def, "String", `"(absent)"`)
+		}
+	}
+	optional("escapeLabel", "project.go", "escapeLabel")
+	optional("unescapeLabel", "project.go", "unescapeLabel")
+	optional("depStampsMarshal", "project.go", "depStamps.MarshalJSON")
+	optional("depStampsUnmarshal", "project.go", "depStamps.UnmarshalJSON")
+	depType := "(not found)"
+	for _, d := range files["project.go"].AST.Decls {
+		if gd, ok := d.(*ast.GenDecl); ok {
+			for _, sp := range gd.Specs {
+				if ts, ok := sp.(*ast.TypeSpec); ok && ts.Name.Name == "targetInfo" {
+					if st, ok := ts.Type.(*ast.StructType); ok {
+						for _, f := range st.Fields.List {
+							for _, n := range f.Names {
+								if n.Name == "Dependencies" {
+									switch t := f.Type.(type) {
+									case *ast.Ident:
+										depType = t.Name
+									case *ast.MapType:
+										depType = "map"
+									}
+								}
+							}
+						}
+					}
+				}
+			}
+		}
+	}
+	o.Def("dependenciesType", "String", lib.LeanString(depType))
+
 	// targetInfo: field names, Go types, JSON names and omitempty
 	var fields []string
 	for _, d := range files["project.go"].AST.Decls {
